@@ -247,6 +247,49 @@ def main():
                          sorted("%s(%d)x%d" % (k_[0], k_[1], v_) for k_, v_ in missing.items()),
                          sorted("%s(%d)x%d" % (k_[0], k_[1], v_) for k_, v_ in ssig.items())),
                         {"strategy": e["name"], "cfg": cfg, "missing": [[k_[0], k_[1], v_] for k_, v_ in missing.items()]})
+    # ---------- (d) a documented level has an influence on the recommendations it is documented for
+    # ("BuyAt defines the level at which a Buy action is generated", "SellAt ... Sell"): the same strategy with ONE level
+    # changed must recommend differently somewhere on series that move through both levels
+    lev = {}
+    for e in pe.catalogue():
+        if e["name"].startswith("levels."):
+            base, tag = e["name"].split("/")
+            lev.setdefault(base, {})[tag] = e
+    lreqs, lmeta = [], []
+    for base, tags in sorted(lev.items()):
+        for tag, e in sorted(tags.items()):
+            for sd in (21, 22, 23):
+                lreqs.append({"id": "l%d" % len(lreqs), "pipe": e["name"], "cfg": [3], "cap": 0, "lens": [240], "data": {"seed": sd + vlib.seed()},
+                              "values": True, "mode": "compute"})
+                lmeta.append((base, tag, sd))
+    lres = vlib.run_children(lreqs) if lreqs else []
+    acts = {}
+    for (base, tag, sd), r_ in zip(lmeta, lres):
+        if r_ is None or r_.get("deadlock") or not r_.get("outs"):
+            machinery.append("%s/%s: no result for the level-influence comparison" % (base, tag))
+            continue
+        acts[(base, tag, sd)] = r_["outs"][0].get("bits") or []
+    nlev = 0
+    for base in sorted(lev):
+        for tag, action_bits, what in (("sell", None, "Sell"), ("buy", None, "Buy")):
+            differs = False
+            seen_any = False
+            for sd in (21, 22, 23):
+                a, b = acts.get((base, "base", sd)), acts.get((base, tag, sd))
+                if a is None or b is None:
+                    continue
+                seen_any = True
+                if a != b:
+                    differs = True
+            if not seen_any:
+                continue
+            nlev += 1
+            if not differs:
+                V.violation({"strategy": base.replace("levels.", ""), "symptom": "level-without-influence", "level": what},
+                            "%s: changing only the documented %s level (%s) changes no recommendation on three series of 240 snapshots "
+                            "that move through both levels: the level the documentation names for %s actions has no influence" %
+                            (base.replace("levels.", ""), what, "levels./%s vs /base entries of harness/cat_compound.go" % tag, what),
+                            {"strategy": base, "variant": tag})
     rc = V.finish()
     for m_ in machinery[:20]:
         print("MACHINERY: " + m_)
@@ -258,7 +301,7 @@ def main():
                 "distinct non-trivial = distinct non-exempt (strategy, valuation) pairs reached" % (len(meta), len(table), len(outs)),
         "positions_checked": nrows, "positions_exempt": nexempt,
         "table_coverage": {s.split(".")[-1]: "%d/%d" % (a, b) for s, (a, b) in sorted(reach.items())},
-        "no_documented_rule": rulesgen.NO_RULE, "field_sets_checked": nfields, "exhaustive": False, "strategies_compared_with_their_indicator_network": ninc, "known_findings_hit": V.hit},
+        "no_documented_rule": rulesgen.NO_RULE, "field_sets_checked": nfields, "exhaustive": False, "strategies_compared_with_their_indicator_network": ninc, "documented_levels_with_influence_checked": nlev, "known_findings_hit": V.hit},
         time.time() - t0, len(V.new),
         assumptions=["spec/rules_documented.json transcribes the documentation; where the code adds undocumented conditions the "
                      "rule is checked as a necessary condition only (mode onlyif)",
